@@ -170,6 +170,48 @@ func checkC07(c *hx.Checker) {
 			}
 		}
 	}
+	// Reshape targets with negative entries other than -1 (pairs whose signs cancel in the product have the right element
+	// count and must still be refused), and Unsqueeze up to output rank 10 (every axes set of a fixed length whose result
+	// has rank 9 / 10 would be too many: the new axes are a contiguous run, a run plus the last position, or the extremes)
+	for _, sh := range [][]int{{2, 3}, {6}, {1, 4}, {2, 1, 2}} {
+		data := ref.Distinct(ref.F32, sh)
+		for _, t := range seqs([]int64{-6, -4, -3, -2, -1, 1, 2, 3}, 1, 3) {
+			neg := false
+			for _, d := range t {
+				neg = neg || d < -1
+			}
+			if !neg {
+				continue
+			}
+			exp, err := ref.Reshape(data, t)
+			for _, rt := range []string{"op", "model"} {
+				add("Reshape", nil, []*ref.T{data, ref.I64Vec(t...)}, exp, err, rt, nil, true, fmt.Sprint(t), "negative-extent")
+			}
+		}
+	}
+	for _, sh := range [][]int{{2, 3}, {3}, {1, 2, 1, 2, 3}, {}} {
+		data := ref.Distinct(ref.F32, sh)
+		r := len(sh)
+		for _, outRank := range []int{8, 9, 10} {
+			k := outRank - r
+			var sets [][]int64
+			for start := 0; start+k <= outRank; start++ { // contiguous run of new axes
+				sets = append(sets, rangeI64(start, start+k-1))
+			}
+			run := rangeI64(0, k-2)
+			sets = append(sets, append(append([]int64{}, run...), int64(outRank-1)), append(append([]int64{}, run...), -1),
+				append([]int64{int64(outRank - 1)}, run...), append(append([]int64{}, run...), int64(outRank)), append(append([]int64{}, run...), int64(-outRank-1)))
+			if k >= 2 {
+				sets = append(sets, append(append([]int64{}, rangeI64(0, k-3)...), int64(outRank-1), -1)) // duplicate at the last position
+				neg := rangeI64(-k, -1)
+				sets = append(sets, neg)
+			}
+			for _, ax := range sets {
+				exp, err := ref.Unsqueeze(data, ax)
+				add("Unsqueeze", nil, []*ref.T{data, ref.I64Vec(ax...)}, exp, err, "op", nil, true, fmt.Sprint(ax), "high-rank")
+			}
+		}
+	}
 	// larger shapes beyond the exhaustive box
 	for _, sh := range [][]int{{4, 5, 6}, {7, 1, 9}, {2, 3, 4, 5, 6}, {64}, {1, 128}, {4099}, {3, 1367}, {1, 32771}, {7, 1, 9363}} {
 		data := ref.Distinct(ref.F32, sh)
